@@ -210,12 +210,24 @@ def _fold_modulus(f: FunctionInfo, expr: ast.AST, name: str, name_vars: List[str
     fo.env["np"] = Opaque("np")
     fo.env["math"] = Opaque("math")
     line = getattr(expr, "lineno", 10 ** 9)
+    # the statements in front of the site are run through the folder (assignments, loops that fill a table, stores into it): how the table of periods is
+    # put together does not matter, what it holds for `name` does
+    for n in f.node.body:
+        if getattr(n, "end_lineno", n.lineno) >= line:
+            break
+        if isinstance(n, (ast.Assign, ast.AugAssign, ast.For, ast.If)):
+            try:
+                fo.stmt(n)
+            except (Undecidable, Raised):
+                pass
     for n in own_nodes(f.node):
-        if isinstance(n, ast.Assign) and len(n.targets) == 1 and isinstance(n.targets[0], ast.Name) and n.lineno <= line:
+        if isinstance(n, ast.Assign) and len(n.targets) == 1 and isinstance(n.targets[0], ast.Name) and n.lineno <= line and n.targets[0].id not in fo.env:
             try:
                 fo.env[n.targets[0].id] = fo.expr(n.value)
             except (Undecidable, Raised):
                 pass
+    for v in name_vars:
+        fo.env[v] = name
     try:
         v = fo.expr(expr)
     except (Undecidable, Raised) as u:
